@@ -541,6 +541,8 @@ type vgen struct {
 	leader uint64
 	term   uint64
 	nn     uint64
+	// the scripted case knows that the leader's running sum covers everything since the previous checkpoint
+	leaderRangeKnown bool
 }
 
 func (g *vgen) do(op string) string {
@@ -658,6 +660,9 @@ func (g *vgen) storeOn(node uint64, logs []*raft.Log) bool {
 			exp := "clean"
 			if g.dirtyIn(node, g.first[node], l.Index) != "" {
 				exp = "any"
+				if g.leaderRangeKnown {
+					exp = "mismatch-atrest" // scripted case: the damaged entries are known to lie inside the leader's own range
+				}
 			}
 			g.do(fmt.Sprintf("expect %d %d %s", node, l.Index, exp))
 		}
@@ -832,6 +837,29 @@ func (g *vgen) step() {
 		n := uint64(r.Intn(int(g.nn)))
 		// only while no verification of this node is pending or queued: the expectation of a report is
 		// fixed when its checkpoint is stored
+		if g.last[n] > g.first[n]+1 && !g.impl.nodes[n].pending && r.Chance(1, 3) {
+			// two stored entries returned in each other's place (each complete and well-formed)
+			// among the most recent entries, so that both tend to fall into the range of the next checkpoint
+			lo := g.first[n]
+			if g.last[n] >= lo+3 {
+				lo = g.last[n] - 3
+			}
+			a := lo + uint64(r.Intn(int(g.last[n]-lo)+1))
+			b := lo + uint64(r.Intn(int(g.last[n]-lo)+1))
+			ta, tb := g.readStored(n, a), g.readStored(n, b)
+			cpa, _ := isCPFn(ta)
+			cpb, _ := isCPFn(tb)
+			if a != b && ta != nil && tb != nil && !cpa && !cpb && a != 1 && b != 1 && g.dirty[n][a] == "" && g.dirty[n][b] == "" && logTok(ta) != logTok(tb) {
+				g.do(fmt.Sprintf("corrupt %d %d %s", n, a, logTok(tb)))
+				g.do(fmt.Sprintf("corrupt %d %d %s", n, b, logTok(ta)))
+				if g.dirty[n] == nil {
+					g.dirty[n] = map[uint64]string{}
+				}
+				g.dirty[n][a], g.dirty[n][b] = "atrest", "atrest"
+				g.tags["atrest-swap"] = true
+			}
+			return
+		}
 		if g.last[n] > g.first[n] && !g.impl.nodes[n].pending {
 			idx := g.first[n] + uint64(r.Intn(int(g.last[n]-g.first[n])))
 			t := g.readStored(n, idx)
@@ -1145,6 +1173,125 @@ func verConcurrentCompaction(r *Rng) []Violation {
 	return viols
 }
 
+// genVerCompactionCase: the leader compacts its log head past its last checkpoint (its running sum then starts afresh)
+// while a follower keeps those entries; more entries and a checkpoint follow. Nothing is corrupted: whichever range the
+// checkpoint names, a node that holds all of it unchanged must not report a mismatch, one that lacks part of it reports
+// ErrRangeMismatch.
+func genVerCompactionCase(r *Rng, id string) *Case {
+	g := &vgen{r: r, impl: &verImpl{nodes: map[uint64]*vnode{}}, tags: map[string]bool{"leader-compaction-past-checkpoint": true, "head-trunc": true}, truth: map[uint64]*raft.Log{},
+		last: map[uint64]uint64{}, first: map[uint64]uint64{}, dirty: map[uint64]map[uint64]string{}, term: 1}
+	defer g.impl.cleanup()
+	g.nn = 2 + uint64(r.Intn(2))
+	for n := uint64(0); n < g.nn; n++ {
+		g.do(fmt.Sprintf("node %d", n))
+	}
+	g.tLast = pick(r, []uint64{0, 0, 1233})
+	catchUp := func(f uint64) {
+		for k := 0; k < 40 && g.last[f] < g.tLast; k++ {
+			g.replicate(f, false)
+		}
+	}
+	releaseAll := func() {
+		for n := uint64(0); n < g.nn; n++ {
+			for k := 0; k < 3; k++ {
+				g.do(fmt.Sprintf("release %d", n))
+			}
+		}
+	}
+	g.appendLeader(3+r.Intn(4), false)
+	g.appendLeader(1, true) // checkpoint CP1
+	cp1 := g.tLast
+	for n := uint64(1); n < g.nn; n++ {
+		catchUp(n)
+	}
+	releaseAll()
+	g.appendLeader(3+r.Intn(4), false)
+	for n := uint64(1); n < g.nn; n++ {
+		catchUp(n)
+	}
+	// the leader (and perhaps one follower) compacts up to somewhere at or beyond CP1
+	upto := cp1 + uint64(r.Intn(int(g.tLast-cp1)))
+	who := []uint64{g.leader}
+	if g.nn > 2 && r.Bool() {
+		who = append(who, 2)
+	}
+	for _, n := range who {
+		g.do(fmt.Sprintf("vdel %d %d %d", n, g.first[n], upto))
+		for i := range g.dirty[n] {
+			if i <= upto {
+				delete(g.dirty[n], i)
+			}
+		}
+		g.first[n] = upto + 1
+	}
+	g.appendLeader(1+r.Intn(3), false)
+	g.appendLeader(1, true) // checkpoint CP2
+	for n := uint64(1); n < g.nn; n++ {
+		catchUp(n)
+	}
+	releaseAll()
+	g.appendLeader(1+r.Intn(3), true)
+	for n := uint64(1); n < g.nn; n++ {
+		catchUp(n)
+	}
+	return g.finish(id)
+}
+
+// genVerSwapCase: inside the range of the next checkpoint two stored entries are returned in each other's place by the
+// store of one node (each record complete and well-formed, only at the wrong index): that node's report for the range must
+// carry a checksum mismatch, and must not blame in-flight corruption (what it wrote was right).
+func genVerSwapCase(r *Rng, id string) *Case {
+	g := &vgen{r: r, impl: &verImpl{nodes: map[uint64]*vnode{}}, tags: map[string]bool{"atrest-swap": true, "atrest-corruption": true}, truth: map[uint64]*raft.Log{},
+		last: map[uint64]uint64{}, first: map[uint64]uint64{}, dirty: map[uint64]map[uint64]string{}, term: 1}
+	defer g.impl.cleanup()
+	g.nn = 2
+	for n := uint64(0); n < g.nn; n++ {
+		g.do(fmt.Sprintf("node %d", n))
+	}
+	g.tLast = pick(r, []uint64{0, 5, 400})
+	catchUp := func(f uint64) {
+		for k := 0; k < 40 && g.last[f] < g.tLast; k++ {
+			g.replicate(f, false)
+		}
+	}
+	releaseAll := func() {
+		for n := uint64(0); n < g.nn; n++ {
+			for k := 0; k < 3; k++ {
+				g.do(fmt.Sprintf("release %d", n))
+			}
+		}
+	}
+	g.appendLeader(2+r.Intn(3), false)
+	g.appendLeader(1, true)
+	catchUp(1)
+	releaseAll()
+	lo := g.tLast + 1
+	g.appendLeader(3+r.Intn(4), false)
+	catchUp(1)
+	n := uint64(r.Intn(2))
+	hi := g.tLast
+	a := lo + uint64(r.Intn(int(hi-lo)+1))
+	b := lo + uint64(r.Intn(int(hi-lo)+1))
+	if a == b {
+		if a < hi {
+			b = a + 1
+		} else {
+			b = a - 1
+		}
+	}
+	ta, tb := g.readStored(n, a), g.readStored(n, b)
+	if ta != nil && tb != nil && logTok(ta) != logTok(tb) {
+		g.do(fmt.Sprintf("corrupt %d %d %s", n, a, logTok(tb)))
+		g.do(fmt.Sprintf("corrupt %d %d %s", n, b, logTok(ta)))
+		g.dirty[n] = map[uint64]string{a: "atrest", b: "atrest"}
+		g.leaderRangeKnown = true
+	}
+	g.appendLeader(1, true)
+	catchUp(1)
+	releaseAll()
+	return g.finish(id)
+}
+
 func suiteVerifier(seed uint64, tier string) *Report {
 	rep := newReport("verifier", seed, tier)
 	rep.Rule = "multi-node histories (2–3 nodes) through the real verifier.LogStore over the real WAL: leader appends with checkpoints, replication of arbitrary slices in arbitrary batch splits, leadership changes that truncate conflicting suffixes, head truncations, middleware restarts, in-flight alterations of single fields, at-rest alterations returned by the store, foreign Extensions, a ReportFn the harness blocks and releases at chosen points; every delivered report (range, sums, error class, skipped range), every stored entry and the counters compared with Model.Verifier; plus single-entry checksums (field order / FNV-1a) via the `sum` op. Non-trivial = at least one of: corruption injected, leader change, truncation, restart, dropped/queued report; distinct by feature set, node count and length class."
@@ -1165,6 +1312,8 @@ func suiteVerifier(seed uint64, tier string) *Report {
 	}
 	for i := 0; i < nb; i++ {
 		cases = append(cases, genVerBoundaryCase(r.Fork(), fmt.Sprintf("ver-boundary-%d-%d", seed, i)))
+		cases = append(cases, genVerCompactionCase(r.Fork(), fmt.Sprintf("ver-compaction-%d-%d", seed, i)))
+		cases = append(cases, genVerSwapCase(r.Fork(), fmt.Sprintf("ver-swap-%d-%d", seed, i)))
 	}
 	// single-entry checksum cases
 	sc := &Case{ID: fmt.Sprintf("ver-sum-%d", seed), Props: []string{"C16", "C17"}, Exec: execVerifier, NonTrivial: true, Shape: "sum"}
